@@ -227,6 +227,12 @@ where
 
         let sm = self.state_machine.clone();
 
+        // A snapshot records "state as of last_applied": no entry may be applied between
+        // create_snapshot()'s read of last_applied and the state machine's data copy, or the
+        // snapshot contains entries beyond its recorded boundary (they are then applied twice by
+        // whoever installs it). create_snapshot() holds the write side of this lock.
+        let _snapshot_guard = self.snapshot_lock.read().await;
+
         // Decode proto bytes → ApplyEntry exactly once here.
         // State machine receives clean Rust types; never touches proto or wire format.
         let apply_entries = decode_entries(chunk)?;
